@@ -8,8 +8,8 @@ namespace Rtosc.Walk
 open Rtosc Rtosc.Path Rtosc.Match
 
 theorem portIsEnabled_unguarded (i : Nat) (p : PortT) (b : Buf) (base : List PortT) (path : List Nat)
-    (rt : Option Obj) (rel : Bool) (h : unguarded p.metadata = true) :
-    portIsEnabled (some (i, p)) b base path rt rel = .ok (true, []) := by
+    (rt : Option Obj) (rel : Bool) (portRt : Option Obj) (h : unguarded p.metadata = true) :
+    portIsEnabled (some (i, p)) b base path rt rel portRt = .ok (true, []) := by
   cases rt with
   | none => rfl
   | some obj =>
@@ -64,7 +64,7 @@ theorem walkTable_noguard (loop : Nat → Buf → M (List Call × Buf)) (ts : Li
         | none => simp only [Option.bind_some, hj, Option.map_none]; cases rt <;> rfl
         | some p =>
           simp only [Option.bind_some, hj, Option.map_some]
-          exact portIsEnabled_unguarded j p _ _ _ _ _ (noGuards_mem ts hng p (List.mem_of_getElem? hj))
+          exact portIsEnabled_unguarded j p _ _ _ _ _ _ (noGuards_mem ts hng p (List.mem_of_getElem? hj))
     simp only [walkTable, bind, Except.bind, h0, hc, ↓reduceIte, pure, Except.pure, hl, hen]
     cases loop (c :: r).length (c :: r ++ 0 :: Y) with
     | error e => rfl
@@ -178,7 +178,7 @@ theorem walkPort_pruned : ∀ (t : STree) (base : List PortT) (path : List Nat) 
               (pre ++ w.head ++ a ++ [47]) Y' hwf.2 hng.2 hd hQ hQne hroom
             refine ⟨Y'', ?_, l1⟩
             have hen := portIsEnabled_unguarded i (.mk w.render md true (toPorts kids))
-              ((pre ++ w.head ++ a ++ [47]) ++ 0 :: Y') base path (some obj) true (by simpa [PortT.metadata] using hng.1)
+              ((pre ++ w.head ++ a ++ [47]) ++ 0 :: Y') base path (some obj) true (some c) (by simpa [PortT.metadata] using hng.1)
             simp only [k, recurseGate, hrel, hkid, hen, calls, hdrop, ↓reduceIte]
             rw [walkTable_noguard _ kids _ _ _ _ hQ hQne hng.2, h1]
             simp
